@@ -9,7 +9,7 @@ from .c10 import make_pyramid
 
 PROP = 'C07'
 MODULE = 'WaveletsVerif.Properties.C07'
-THEOREMS = ['WV.C07.corr_linear', 'WV.C07.padIdx_linear', 'WV.C07.afb1dOne_symmetric_linear', 'WV.C07.afb1dT_per_channel', 'WV.C07.afb1dT_total', 'WV.C01.DWT1DForward_multi']
+THEOREMS = ['WV.C07.corr_linear', 'WV.C07.padIdx_linear', 'WV.C07.afb1dOne_symmetric_linear', 'WV.C07.afb1dT_per_channel', 'WV.C07.afb1dT_total', 'WV.C01.DWT1DForward_multi', 'WV.C07.afb1dOne_linear', 'WV.C07.afb1dOne_guardedLin', 'WV.C07.Lin.comp']
 TABLE = dict(I1); TABLE.update(I2)
 
 
